@@ -9,11 +9,12 @@ package strategy
 //@ func interface Strategy.Name
 //@ pure
 //@ func interface Strategy.Compute
+//@ attr refinement = strategy/momentum.AwesomeOscillatorStrategy, strategy/momentum.RsiStrategy, strategy/momentum.StochasticRsiStrategy, strategy/momentum.TripleRsiStrategy, strategy/trend.AlligatorStrategy, strategy/trend.ApoStrategy, strategy/trend.AroonStrategy, strategy/trend.BopStrategy, strategy/trend.CciStrategy, strategy/trend.DemaStrategy, strategy/trend.EnvelopeStrategy, strategy/trend.GoldenCrossStrategy, strategy/trend.KamaStrategy, strategy/trend.KdjStrategy, strategy/trend.MacdStrategy, strategy/trend.QstickStrategy, strategy/trend.SmmaStrategy, strategy/trend.TrimaStrategy, strategy/trend.TripleMovingAverageCrossoverStrategy, strategy/trend.TrixStrategy, strategy/trend.TsiStrategy, strategy/trend.VwmaStrategy, strategy/trend.WeightedCloseStrategy, strategy/volatility.BollingerBandsStrategy, strategy/volatility.SuperTrendStrategy, strategy/volume.ChaikinMoneyFlowStrategy, strategy/volume.EaseOfMovementStrategy, strategy/volume.ForceIndexStrategy, strategy/volume.MoneyFlowIndexStrategy, strategy/volume.NegativeVolumeIndexStrategy, strategy/volume.WeightedAveragePriceStrategy, strategy.BuyAndHoldStrategy
 //@ requires consumed(p0) == 0
-//@ ensures[C05] len(result) >= len(p0) && (len(p0) >= warmup(self) ==> len(result) == len(p0))
-//@ ensures[C05] forall k :: 0 <= k && k < len(result) ==> 0 - 1 <= result[k] && result[k] <= 1
-//@ ensures[C05] forall k :: 0 <= k && k < min(warmup(self), len(result)) ==> result[k] == 0
-//@ ensures[C05] len(p0) < warmup(self) ==> (forall k :: 0 <= k && k < len(result) ==> result[k] == 0)
+//@ ensures[C05] "len" len(result) >= len(p0) && (len(p0) >= warmup(self) ==> len(result) == len(p0))
+//@ ensures[C05] "range" forall k :: 0 <= k && k < len(result) ==> 0 - 1 <= result[k] && result[k] <= 1
+//@ ensures[C05] "warmup-hold" forall k :: 0 <= k && k < min(warmup(self), len(result)) ==> result[k] == 0
+//@ ensures[C05] "short-hold" len(p0) < warmup(self) ==> (forall k :: 0 <= k && k < len(result) ==> result[k] == 0)
 //@ ensures[C03] consumed(p0) == len(p0) && closed(result)
 //@ ensures[C04] forall k :: 0 <= k && k < len(result) && k < len(p0) ==> hor(result, k) <= hor(p0, k)
 
@@ -120,6 +121,7 @@ package strategy
 //@ ensures[C04] forall k :: 0 <= k && k < len(result0) && k < len(c) ==> hor(result0, k) <= hor(c, k)
 //@ ensures[C04] forall k :: 0 <= k && k < len(result1) ==> hor(result1, k) <= hor(c, k)
 
+//@ typeinv BuyAndHoldStrategy :: warmup(self) == 0
 //@ func BuyAndHoldStrategy.Compute
 //@ requires consumed(snapshots) == 0
 //@ ensures[C05,C06] len(result) == len(snapshots)
